@@ -9,7 +9,7 @@ CONSTANTS
   MaxOps,       \* bound on the number of operations of a behaviour (0 = unbounded)
   Emit,         \* "none" | "states" | "classes" : which behaviours are printed for replay
   RootViaSet,   \* subset of RootVias used for root edits
-  WithBarrierOnly, WithFinalize, WithDrop, WithMany, WithWeak, WithUnlink,
+  WithBarrierOnly, WithFinalize, WithDrop, WithMany, WithWeak, WithUnlink, WithDebtCalls, WithLeak,
   FaultAts      \* set of trace-call indices at which a trace panic may be injected ({} = no faults)
 
 VARIABLES h, hist,
@@ -19,6 +19,9 @@ vars == <<h, hist, pcl>>
 \* VIEW: neither the history nor (in the safety configurations, where an explicit budget decides
 \* how far a call runs) the metric counters are part of the state
 vw == [h EXCEPT !.mt = 0, !.pc = 0]
+\* pair-class emission needs the class of the step that led here: two steps reaching one heap by
+\* different classes (say a forward barrier with and without a holder) must both be continued
+vwp == <<vw, pcl>>
 
 Init == h = EmptyHeap /\ hist = <<>> /\ pcl = <<>>
 
@@ -64,6 +67,7 @@ Do(s2, op) == h' = s2 /\ hist' = Append(hist, op) /\ pcl' = ClassOf(h, op, s2)
 
 Running == h.phase # "Dropped"
 A == Ordinary(h)
+Hd == Holders(h)     \* accessible and not frozen by a leaked RefMut: can hold new pointers
 
 \* ---------------------------------------------------------------- mutator
 AllocRootA ==
@@ -72,7 +76,7 @@ AllocRootA ==
        Do(AllocRoot(h, o, k), [op |-> "alloc_root", o |-> o, k |-> k, via |-> via])
 
 AllocIntoA ==
-  \E o \in FreeIds(h), k \in Kinds, p \in A :
+  \E o \in FreeIds(h), k \in Kinds, p \in Hd :
     /\ HasRoom(h, p) \/ h.kind[p] = "L"
     /\ \E path \in StrongPaths(h.kind[p]) :
          Do(AllocInto(h, o, k, p, path), [op |-> "alloc_into", o |-> o, k |-> k, p |-> p, path |-> path])
@@ -82,14 +86,14 @@ AllocTempA ==
     Do(AllocTemp(h, o, k), [op |-> "alloc_temp", o |-> o, k |-> k])
 
 LinkA ==
-  \E p \in A, c \in A :
+  \E p \in Hd, c \in A :
     /\ c \notin Kids(h, p)
     /\ HasRoom(h, p) \/ h.kind[p] = "L"
     /\ \E path \in StrongPaths(h.kind[p]) :
          Do(Link(h, p, c, path), [op |-> "link", p |-> p, c |-> c, path |-> path])
 
 UnlinkA ==
-  \E p \in A : \E c \in Kids(h, p), path \in RemovePaths(h.kind[p]) :
+  \E p \in Hd : \E c \in Kids(h, p), path \in RemovePaths(h.kind[p]) :
     Do(Unlink(h, p, c, path), [op |-> "unlink", p |-> p, c |-> c, path |-> path])
 
 RootAddA ==
@@ -102,14 +106,14 @@ RootRemoveA ==
     Do(RootRemove(h, c), [op |-> "root_remove", c |-> c, via |-> via])
 
 WLinkA ==
-  \E p \in A, t \in A :
+  \E p \in Hd, t \in A :
     /\ t \notin h.weak[p]
     /\ HasWeakRoom(h, p) \/ h.kind[p] = "L"
     /\ \E path \in WeakPaths(h.kind[p]) :
          Do(WLink(h, p, t, path), [op |-> "wlink", p |-> p, t |-> t, path |-> path])
 
 WUnlinkA ==
-  \E p \in A : \E t \in h.weak[p], path \in RemovePaths(h.kind[p]) :
+  \E p \in Hd : \E t \in h.weak[p], path \in RemovePaths(h.kind[p]) :
     Do(WUnlink(h, p, t, path), [op |-> "wunlink", p |-> p, t |-> t, path |-> path])
 
 RootWAddA ==
@@ -123,7 +127,7 @@ RootWRemoveA ==
 
 BarrierOnlyA ==
   /\ WithBarrierOnly
-  /\ \E p \in A, c \in A :
+  /\ \E p \in Hd, c \in A :
        \E path \in BarrierPaths(h.kind[p]) :
          Do(BarrierOnly(h, path, p, c), [op |-> "barrier", p |-> p, c |-> c, path |-> path])
 
@@ -132,7 +136,7 @@ BarrierOnlyA ==
 \* wrongly succeeds adopts a doomed pointer, which the monitor then sees destructed while reachable.
 \* (Successful upgrades followed by a store are LinkA with a weakly accessible child.)
 UpgradeStoreA ==
-  \E e \in WeakEdges(h), p \in A :
+  \E e \in WeakEdges(h), p \in Hd :
     /\ ~CanUpgrade(h, e[2])
     /\ HasRoom(h, p) \/ h.kind[p] = "L"
     /\ \E path \in StrongPaths(h.kind[p]) :
@@ -141,7 +145,7 @@ UpgradeStoreA ==
 \* one parent-only backward barrier, then several adoptions in the same callback
 LinkManyA ==
   /\ WithMany
-  /\ \E p \in A, c1 \in A, c2 \in A :
+  /\ \E p \in Hd, c1 \in A, c2 \in A :
        /\ h.kind[p] \in {"N", "F"} /\ c1 # c2 /\ c1 \notin Kids(h, p) /\ c2 \notin Kids(h, p)
        /\ Len(h.strong[p]) + 2 <= MaxKids
        /\ Do(Mut([Backward(h, p, NoObj) EXCEPT !.strong[p] = @ \o <<c1, c2>>]),
@@ -150,7 +154,7 @@ LinkManyA ==
 \* one child-only forward barrier, then adoption by several parents in the same callback
 LinkByManyA ==
   /\ WithMany
-  /\ \E c \in A, p1 \in A, p2 \in A :
+  /\ \E c \in A, p1 \in Hd, p2 \in Hd :
        /\ p1 # p2 /\ h.kind[p1] \in {"N", "F"} /\ h.kind[p2] \in {"N", "F"}
        /\ c \notin Kids(h, p1) /\ c \notin Kids(h, p2) /\ HasRoom(h, p1) /\ HasRoom(h, p2)
        /\ Do(Mut([Forward(h, NoObj, c) EXCEPT !.strong[p1] = Append(@, c), !.strong[p2] = Append(@, c)]),
@@ -182,10 +186,12 @@ HandleOps == CloneHandleA \/ DropHandleA
 CallA ==
   \/ \E kind \in {"finish_marking", "finish_cycle"} :
        Do(Call(h, kind, 0, "P1", FALSE), [op |-> "call", kind |-> kind, b |-> 0, g |-> "P1", cont |-> FALSE])
-  \/ \E kind \in {"mark_debt", "cycle_debt"}, b \in Budgets \cup {0}, g \in Grans :
-       Do(Call(h, kind, b, g, FALSE), [op |-> "call", kind |-> kind, b |-> b, g |-> g, cont |-> FALSE])
-  \/ \E b \in Budgets \cup {0}, g \in Grans, cont \in BOOLEAN :
-       Do(Call(h, "collect_debt", b, g, cont), [op |-> "call", kind |-> "collect_debt", b |-> b, g |-> g, cont |-> cont])
+  \/ /\ WithDebtCalls
+     /\ \E kind \in {"mark_debt", "cycle_debt"}, b \in Budgets \cup {0}, g \in Grans :
+          Do(Call(h, kind, b, g, FALSE), [op |-> "call", kind |-> kind, b |-> b, g |-> g, cont |-> FALSE])
+  \/ /\ WithDebtCalls
+     /\ \E b \in Budgets \cup {0}, g \in Grans, cont \in BOOLEAN :
+          Do(Call(h, "collect_debt", b, g, cont), [op |-> "call", kind |-> "collect_debt", b |-> b, g |-> g, cont |-> cont])
 
 \* a collection call during which the k-th Collect::trace invocation panics (C11)
 FaultPos == 0..MaxKids \cup {AllPos}
@@ -209,7 +215,7 @@ PanicCbA ==
         /\ \E o \in FreeIds(h), k \in Kinds, via \in RootViaSet :
              Do(IF via = "mutate_root" THEN AllocRoot(h, o, k) ELSE DropAll(h),
                 [op |-> "alloc_root", o |-> o, k |-> k, via |-> via, panic |-> TRUE])
-     \/ \E p \in A, c \in A :
+     \/ \E p \in Hd, c \in A :
           /\ c \notin Kids(h, p) /\ HasRoom(h, p) /\ h.kind[p] = "N"
           /\ Do(Link(h, p, c, "borrow_mut"), [op |-> "link", p |-> p, c |-> c, path |-> "borrow_mut", panic |-> TRUE])
      \/ \* try_map_root whose callback returns Err: the arena is dropped
@@ -221,23 +227,29 @@ PanicCbA ==
 
 \* finish_marking().unwrap().start_sweeping()
 StartSweepingA ==
-  /\ h.phase # "Sweep"
+  /\ h.phase # "Sweep" /\ h.leaked = {}
   /\ Do(Call(FinishMarking(h), "start_sweeping", 0, "P1", FALSE), [op |-> "start_sweeping"])
 
 \* finish_marking().unwrap().finalize(|fc, root| resurrect t)
 FinalizeA ==
   /\ WithFinalize
-  /\ h.phase # "Sweep"
+  /\ h.phase # "Sweep" /\ h.leaked = {}
   /\ LET s1 == FinishMarking(h) IN
      \E t \in Ordinary(s1) \cup {NoObj} :
        Do(Finalize(s1, t), [op |-> "finalize", t |-> t])
+
+\* mem::forget(p.borrow_mut(mc)) on a Gc<RefLock<_>>: safe code.  From now on p can be neither read
+\* nor written, and RefLock::trace panics (it must not skip the object: its pointers are still there).
+LeakA ==
+  /\ WithLeak
+  /\ \E p \in Hd : h.kind[p] = "N" /\ Do(Leak(h, p), [op |-> "leak", p |-> p])
 
 DropArenaA == WithDrop /\ Do(DropAll(h), [op |-> "drop_arena"])
 
 Mutator == \/ AllocRootA \/ AllocIntoA \/ AllocTempA \/ LinkA \/ RootRemoveA
            \/ (WithUnlink /\ (UnlinkA \/ RootAddA))
            \/ (WithWeak /\ (WLinkA \/ WUnlinkA \/ RootWAddA \/ RootWRemoveA \/ UpgradeStoreA))
-           \/ BarrierOnlyA \/ LinkManyA \/ LinkByManyA \/ PanicCbA
+           \/ BarrierOnlyA \/ LinkManyA \/ LinkByManyA \/ PanicCbA \/ LeakA
 Collector == CallA \/ StartSweepingA \/ FinalizeA \/ CallFaultA
 
 Next == (Running /\ (Mutator \/ DynMutator \/ Collector \/ DropArenaA)) \/ HandleOps
@@ -309,8 +321,9 @@ C01_NoLostReachable == \A o \in Reach(h) : h.alive[o] /\ h.live[o]
 AccSafe == \A o \in Acc(h) : h.alive[o] /\ h.live[o]
 
 \* "from any state, two consecutive finish_cycle calls with no mutation in between ..."
+\* (a full collection that RETURNS: while a RefLock frozen by a leaked RefMut exists, tracing panics)
 C02_Exact ==
-  Running =>
+  Running /\ {o \in h.leaked : h.alive[o]} = {} =>
     LET s2 == FinishCycle(FinishCycle(h)) IN
     /\ {o \in Obj : s2.live[o]} = Reach(h)
     /\ {o \in Obj : s2.alive[o] /\ ~s2.live[o]} \subseteq WeakTargetsOfReachable(h)
@@ -411,13 +424,14 @@ C08_PhaseProtocol ==
   [][hist' # hist =>
        LET op == LastOp  b == ObsPhase(h)  a == ObsPhase(h') IN
        \* (calls with an armed trace fault may unwind: the protocol speaks about calls that return)
-       /\ op.op = "call" /\ "fault" \notin DOMAIN op => PhaseOK(op.kind, b, a)
+       \* (so may calls that meet a RefLock frozen by a leaked RefMut)
+       /\ op.op = "call" /\ "fault" \notin DOMAIN op /\ h.leaked = {} => PhaseOK(op.kind, b, a)
        /\ op.op = "start_sweeping" => a = "Sweeping"
        /\ op.op = "finalize" => a \in {"Marked", "Marking"}
        \* sweeping begins only from a fully marked arena: a step that enters Sweeping from
        \* outside must pass through Marked, which Loop guarantees; checked structurally by
        \* SweepRegion at the first Sweeping state.
-       /\ (op.op = "call" /\ "fault" \notin DOMAIN op /\ op.kind \in {"mark_debt", "finish_marking"} /\ b # "Sweeping")
+       /\ (op.op = "call" /\ "fault" \notin DOMAIN op /\ h.leaked = {} /\ op.kind \in {"mark_debt", "finish_marking"} /\ b # "Sweeping")
             => (ReturnsMarked(h') <=> a = "Marked")]_vars
 
 -----------------------------------------------------------------------------
@@ -435,7 +449,7 @@ Proj(s) ==
 EmitLine(tag) == PrintT(<<tag, ToJson([ops |-> hist, final |-> Proj(h)])>>)
 
 \* one behaviour per distinct state (listed as an INVARIANT; always TRUE)
-EmitStates == Emit = "states" /\ hist # <<>> => EmitLine("BEH")
+EmitStates == (Emit = "states" /\ hist # <<>>) \/ (Emit = "walks" /\ Len(hist) = MaxOps) => EmitLine("BEH")
 
 \* listed as ACTION_CONSTRAINT: prints the first behaviour per class and worker; always TRUE
 \* Emit = "classes": one witness per class of the LAST transition.  Emit = "pairs": one witness per
@@ -443,7 +457,10 @@ EmitStates == Emit = "states" /\ hist # <<>> => EmitLine("BEH")
 \* objects) -- so that the CONSEQUENCES of every class of transition are replayed, not only the
 \* transition itself.
 SameObjs(op1, op2) ==
-  LET objs(op) == {op[f] : f \in DOMAIN op \cap {"p", "c", "t", "o", "d", "c1", "c2", "p1", "p2"}} IN objs(op1) \cap objs(op2) # {}
+  LET vals(op, fs) == {op[f] : f \in DOMAIN op \cap fs}
+      now == vals(op2, {"p", "c", "t", "o", "d", "c1", "c2", "p1", "p2"})
+  IN <<now \cap vals(op1, {"p", "p1", "p2", "d"}) # {},          \* touches the previous operation's holder(s)
+       now \cap vals(op1, {"c", "t", "o", "c1", "c2"}) # {}>>    \* touches the previous operation's target(s)
 EmitClasses ==
   Emit \in {"classes", "pairs"} =>
     LET cl == IF Emit = "classes" \/ Len(hist) = 0 THEN pcl'
